@@ -395,3 +395,66 @@ Proof.
 Qed.
 
 End CGRun.
+
+(* ---------------------------------------------------------------- the error in the A-norm along a search line *)
+Section CGEnergy.
+Context {A : SArith}.
+Notation F := (T (SA A)).
+Variable FL : FieldLaws (SA A).
+Add Field FFcg3 : (fl_field (SA A) FL).
+Variables (n : nat) (mulA : list F -> res (list F)).
+Hypothesis LO : LinOp n mulA.
+Hypothesis SYM : SymOp n mulA.
+
+(* <e, A e>, the square of the A-norm of e (zero where the product is undefined: never, for a LinOp) *)
+Definition anorm2 (e : list F) : F := match mulA e with Ok ae => dot_raw e ae | Panic _ => zero end.
+
+(* for the exact solution xs of A xs = b, an iterate x with residual r = b - A x, a direction p, q = A p and
+   any step length t:   |xs - (x + t p)|_A^2 = |xs - x|_A^2 - 2 t <r,p> + t^2 <p,q> *)
+Lemma anorm2_line (b xs x ax p q : list F) t :
+  length xs = n -> length x = n -> length p = n -> length b = n ->
+  mulA xs = Ok b -> mulA x = Ok ax -> mulA p = Ok q ->
+  anorm2 (zipw sub xs (zipw add x (vscale p t))) =
+  add (sub (anorm2 (zipw sub xs x)) (mul (add t t) (dot_raw (zipw sub b ax) p))) (mul (mul t t) (dot_raw p q)).
+Proof.
+  intros Hxs Hx Hp Hb Exs Ex Ep.
+  assert (Hax : length ax = n) by (eapply mulA_len'; eauto).
+  assert (Hq : length q = n) by (eapply mulA_len'; eauto).
+  rewrite <- (zipw_sub_sub FL).
+  set (e := zipw sub xs x).
+  assert (He : length e = n) by (unfold e; rewrite zipw_length; lia).
+  set (et := zipw sub e (vscale p t)).
+  assert (Het : length et = n) by (unfold et; rewrite zipw_length; auto; rewrite vscale_length; lia).
+  destruct (lo_ok n mulA LO e He) as (ae & Eae & Hae).
+  destruct (lo_ok n mulA LO et Het) as (aet & Eaet & Haet).
+  unfold anorm2. rewrite Eae, Eaet.
+  assert (X1 : forall w, dot_raw et w = sub (dot_raw e w) (mul (dot_raw p w) t)).
+  { intros w. unfold et. rewrite (dot_raw_sub_l FL) by (rewrite vscale_length; lia). now rewrite (dot_raw_scale_l FL). }
+  assert (X2 : forall w, dot_raw w et = sub (dot_raw w e) (mul (dot_raw w p) t)).
+  { intros w. rewrite (dot_raw_comm FL w et), X1. now rewrite (dot_raw_comm FL e w), (dot_raw_comm FL p w). }
+  assert (Eq1 : dot_raw e aet = dot_raw ae et) by (apply SYM; auto).
+  assert (Eq2 : dot_raw p aet = dot_raw q et) by (apply SYM; auto).
+  assert (Eq3 : dot_raw e q = dot_raw ae p) by (apply SYM; auto).
+  assert (Eq4 : dot_raw xs q = dot_raw b p) by (apply SYM; auto).
+  assert (Eq5 : dot_raw x q = dot_raw ax p) by (apply SYM; auto).
+  assert (Eq6 : dot_raw e q = dot_raw (zipw sub b ax) p).
+  { unfold e. rewrite !(dot_raw_sub_l FL) by lia. now rewrite Eq4, Eq5. }
+  rewrite X1, Eq1, Eq2, !X2, <- Eq3, (dot_raw_comm FL q e), (dot_raw_comm FL ae e), (dot_raw_comm FL q p), Eq6. ring.
+Qed.
+
+(* the direction of a CG step makes <r, p> = <r, r> *)
+Lemma cg_step_rp s0 i s R P x' r' p rho :
+  cg_state_inv n mulA s0 i s R P -> cg_step mulA i (cg_x s) (cg_r s) (cg_p s) (cg_rho1 s) x' r' p rho ->
+  dot_raw (cg_r s) p = rho.
+Proof.
+  intros ((Hx & Hr & Hp & Hz) & _ & _ & HI) (-> & Hdir & _).
+  destruct HI as [(-> & -> & _)|(Hi & HI)].
+  - cbn in Hdir. now subst p.
+  - replace (i =? 1) with false in Hdir by (symmetry; apply Nat.eqb_neq; lia).
+    destruct Hdir as (beta & _ & ->).
+    rewrite (dot_raw_add_r FL) by (rewrite vscale_length; lia). rewrite (dot_raw_scale_r FL).
+    destruct HI as (_ & _ & _ & _ & (R' & P' & _ & -> & _) & I1 & _).
+    pose proof (Forall_inv I1) as E. unfold orth in E. rewrite E. ring.
+Qed.
+
+End CGEnergy.
